@@ -482,6 +482,59 @@ def d5(chk, prog):
         tb2.cell(ok, dict(case="bin 11 is covered by two overlapping segments", bins_tested=seen.get("bins"), residuals_used=seen.get("log2"), returned_bins=kept, want_returned=["b0", "b1", "b3"]))
     tb2.done("bintest does not test each bin against its own segment / adjust over the right bins / return exactly adjusted p < alpha")
 
+    # the adjustment running as written inside do_bintest, on a literal table whose labels are not positions: the adjusted p-values land on their own bins
+    tb4 = Table(chk, "bintest-form", "do_bintest end to end on 5 literal bins labelled 10..14 (z_prob and the adjustment run as written; only the normal CDF is replaced by literal p-values): "
+                "the bins with adjusted p < alpha, all bins / on-target only", fb.loc(), fb.qn + "::end to end")
+    P = {10: Fr(1, 1000), 11: Fr(1, 10000), 12: Fr(1, 2), 13: Fr(1, 5), 14: Fr(3, 1000)}
+    genes5 = {10: "G", 11: "Antitarget", 12: "G", 13: "Background", 14: "H"}
+    import re as _re
+    for target_only in (False, True):
+        W.reset()
+        rows = [dict(chromosome="chr1", start=100 * k, end=100 * k + 100, gene=genes5[k], log2=Term.sym(f"l{k}"), weight=Fr(3, 4)) for k in P]
+        bins5 = make_ga("CopyNumArray", rows, {"sample_id": "S"}, index="any", exact=True, labels=list(P))
+        model = Model()
+
+        def residuals5(it, obj, segments=None):
+            r = Vec([Term.sym(f"r{k}") for k in P], aligned="any")
+            r.exact, r.labels = True, list(P)
+            return r
+        model.method_prims["residuals"] = residuals5
+
+        def cdf(it, x, *a, **k):
+            # the p-value of each bin, identified by the residual symbol its z-score was computed from
+            vals = x.v if isinstance(x, Vec) else [x]
+            out_ = []
+            for v in vals:
+                m_ = _re.search(r"r(\d+)", repr(v))
+                if not m_:
+                    raise Undecided(f"norm.cdf of {v!r}")
+                out_.append(P[int(m_.group(1))] / 2)
+            r = Vec(out_)                        # scipy hands back a plain ndarray, whatever it was given
+            r.exact = True
+            return r
+        for nm in ("scipy.stats.norm.cdf", "stats.norm.cdf", "norm.cdf"):
+            model.ext[nm] = cdf
+        model.ext["logging.debug"] = lambda it, *a, **k: None
+        it = Interp(prog, model)
+        out = tb4.guard(lambda: it.run(fb.qn, [bins5, "SEGMENTS", Fr(5, 1000), target_only]), f"target_only={target_only}")
+        if out is None:
+            continue
+        tested = [k for k in P if not (target_only and genes5[k] in ("Antitarget", "Background"))]
+        order = sorted(tested, key=lambda k: P[k])
+        q, cur = {}, None
+        for rank in range(len(order), 0, -1):
+            k = order[rank - 1]
+            v = min(Fr(1), Fr(len(order), rank) * P[k])
+            cur = v if cur is None else min(cur, v)
+            q[k] = cur
+        want = [k for k in tested if q[k] < Fr(5, 1000)]
+        c = out.data.cols if isinstance(out, GA) else {}
+        got = [int(T(x).cval()) // 100 for x in c["start"].v] if "start" in c else None
+        pv = [repr(x) for x in c["p_bintest"].v] if "p_bintest" in c else None
+        okp = got == want and "p_bintest" in c and all(same(a, q[k]) for a, k in zip(c["p_bintest"].v, want))
+        tb4.cell(okp, dict(target_only=target_only, returned_bins=got, want_returned=want, adjusted_p=pv, want_p=[str(q[k]) for k in want]))
+    tb4.done("bintest does not return exactly the bins whose own adjusted p-value is below alpha (the adjusted values are paired with other bins, or lost)")
+
     # exact Benjamini-Hochberg
     fp = prog.fn("cnvlib.bintest.p_adjust_bh")
     tb3 = Table(chk, "bintest-form", "p_adjust_bh == BH step-up on all orderings of 4 p-values (ties included)", fp.loc(), fp.qn)
